@@ -64,7 +64,9 @@ SetCur(st, f) == [st EXCEPT !.frames[Len(st.frames)] = f]
 Kill(st, why) == [st EXCEPT !.dead = IF @ = "" THEN why ELSE @, !.frozen = TRUE]
 Feed(st, id, v) == SetCur(st, [Cur(st) EXCEPT !.acc[id] = Append(@, v)])
 ItemById(lvl, id) == lvl.named[CHOOSE k \in DOMAIN lvl.named : lvl.named[k].id = id]
-BadValue(it, v) == (it.vt = "int" /\ ~IsInt(v)) \/ (it.guard /\ v = GuardBad)
+NonUtf8 == {"%FF", "f%FF="}            \* percent-spelled byte strings that are not UTF-8
+ConvBad(vt, v) == (vt = "int" /\ ~IsInt(v)) \/ (vt = "str" /\ v \in NonUtf8)
+BadValue(it, v) == ConvBad(it.vt, v) \/ (it.guard /\ v = GuardBad)
 \* an argument receives a value.  `fallback` evaluates its argument on a copy of the ledger and
 \* drops the copy when the value is invalid, so the offending items stay where they were typed
 \* (in front of any later command name); every other arity keeps them consumed.
@@ -154,7 +156,7 @@ NamedVal(f, it, envv) ==
       ev   == EnvOf(envv, it)
       occ  == IF occ0 = <<>> /\ ev # "UNSET" THEN <<(IF it.kind = "arg" THEN ev ELSE "U")>> ELSE occ0
       n    == Len(occ)
-      Fail(k) == IF it.kind = "arg" /\ it.vt = "int" /\ ~IsInt(occ[k]) THEN "conv"
+      Fail(k) == IF it.kind = "arg" /\ ConvBad(it.vt, occ[k]) THEN "conv"
                  ELSE IF it.kind = "arg" /\ it.guard /\ occ[k] = GuardBad THEN "guard" ELSE ""
       \* a single-use item only ever looks at its first occurrence, a repeated one at all of them
       look == IF SingleUse(it) THEN (IF n >= 1 THEN {1} ELSE {}) ELSE DOMAIN occ
@@ -186,7 +188,7 @@ Take(p, ws) ==
   ELSE LET h == Head(ws) IN
        IF p.strict = "strict" /\ ~h.after THEN [st |-> "final", rest |-> ws]
        ELSE IF p.strict = "non_strict" /\ h.after THEN [st |-> "absent", rest |-> ws]
-       ELSE IF p.vt = "int" /\ ~IsInt(h.w) THEN [st |-> "conv", w |-> h.w, rest |-> ws]
+       ELSE IF ConvBad(p.vt, h.w) THEN [st |-> "conv", w |-> h.w, rest |-> ws]
        ELSE [st |-> "got", w |-> (IF p.vt = "int" THEN ToInt(h.w) ELSE h.w), rest |-> Tail(ws)]
 RECURSIVE TakeAll(_, _, _)
 TakeAll(p, ws, got) == LET r == Take(p, ws) IN
